@@ -46,7 +46,10 @@ CHECKS = {
          "recorded execution order (sys.setprofile) of every block in every pass group and every shuffle-seam schedule, checked against bit-level read/write sets from the IR",
          "For the same design families plus explicit-constraint, cyclic-constraint, CL-queue-caller and FL (greenlet) designs, the order in which update blocks and "
          "net blocks actually execute inside sim_eval_combinational and sim_tick is recorded and every writer-before-reader and explicit obligation is checked; "
-         "each block must run exactly once per pass.",
+         "each block must run exactly once per pass. Thorough runs every pass group under 4 object-hash permutations and up to 400 seam schedules per design. "
+         "OpenLoopCLPass: every sequence of <= 4 (5) top-level method calls on 7 designs (push/pull around update blocks, the three CL queues with capacity 1 and 2): blocks, guards and "
+         "methods run at most once per cycle in constraint order, a call is not pushed into the next cycle when the partial order forces it into the current one, and the returned values "
+         "equal a model that replays the executed order.",
          "Trusted: bit-level access analysis in vt/ir.py; net blocks are identified through genblk_writes. Variable indices are treated conservatively.",
          "DESIGN.md 6.C02", "E1 E2"),
  "C07": ("model_checking",
